@@ -161,6 +161,30 @@ def run(chk, replay=None):
         if ci != want:
             chk.violation({"class": "delivery", "what": "%s: expected %s got %s" % (kind, want, ci)},
                           dict(base, expected=want, broken="a witness expression does not evaluate to the value supplied under its name (C05_delivery / C05_witness_expression + C01)"))
+    # witnesses declared through a builtin alias: a value of the documented type (book/src/type_alias.md) is accepted, a value of
+    # a different type with the same layout is not
+    doc = os.path.join(REPO, "book", "src", "type_alias.md")
+    if os.path.exists(doc):
+        rows = re.findall(r"^\|\s*`([A-Za-z0-9]+)`\s*\|\s*`([^`]+)`\s*\|", open(doc).read(), re.M)
+        tys = impl("value", ["(tparse %s)" % quote(d) for _, d in rows])
+        al, ar = [], []
+        for (name, d), r in zip(rows, tys):
+            if not r.startswith("(ok") or name == "ExplicitAmount":
+                continue
+            t = progen.sx_to_ty(parse_sx(r)[1])
+            v = gen.gen_val(rng, t)
+            text = "fn main() { let w: %s = witness::W; }" % name
+            al.append((name, d, "ok", "(run %s () %s 0)" % (quote(text), corelib.bindings_sx([("W", v)]))))
+            ps = progen.cast_partners(t)
+            if ps:
+                al.append((name, d, "sat-error", "(run %s () %s 0)" % (quote(text), corelib.bindings_sx([("W", gen.gen_val(rng, ps[0]))]))))
+        for (name, d, want, ln), x in zip(al, impl("core", [a[3] for a in al])):
+            ci = corelib.classify_impl(x)
+            chk.case(ln, sample={"alias": name, "documented": d, "outcome": ci})
+            chk.count("alias-witness.%s.%s" % (want, ci))
+            if ci != want:
+                chk.violation({"class": "consistency", "what": "witness declared %s (documented %s): expected %s, got %s" % (name, d, want, x[:80])},
+                              {"cmd": "core", "line": ln, "implementation": x, "expected": want, "broken": "a witness declared through a builtin alias must take exactly the values of the alias's documented type"})
     # partially inspected witnesses: the value that satisfy puts into the node must be of the node's (smaller) type — checked
     # through the encoding round trip and the run against the source semantics
     pw = corelib.check_terms(chk, corelib.partial_witness_programs(chk, 60 if quick else 1500, "pw5"), dbgs=(0,))
